@@ -349,6 +349,11 @@ theorem variant_names_separate (n n' : List Nat) (t t' : Tree) (hn : nameOk n = 
 
 /-! ## non-vacuity -/
 
+example : enumTied SafeNet.Gen.WireShape.enum_RecordType (.enum [(nm "Chunk", .absent), (nm "NonChunk", xorName)]) = false := by decide
+example : enumTied SafeNet.Gen.WireShape.enum_RecordType (.enum [(nm "Chunk", .absent), (nm "Scratchpad", xorName), (nm "NonChunk", xorName)]) = false := by decide
+example : structTied SafeNet.Gen.WireShape.struct_PaymentQuote (.tup [xorName, systemTime]) = false := by decide
+example : registerHexShapeOk [] = false := by decide
+
 example : isChunk [0x91, 1, 0xc4] = some true := by decide
 example : isChunk [0x91, 5, 0xc4] = some false := by decide
 example : isChunk [0x91, 8, 0xc4] = none := by decide
